@@ -238,6 +238,14 @@ func runC19(c *Ctx) *Violation {
 
 	// ---- F1: fault-free write, legal-but-unusual delivery on read
 	c.Eval()
+	if t.Draw(2) == 1 {
+		// the path already holds an older, longer file: the writers must truncate it
+		old := append(append([]byte(nil), fc.file...), fc.file...)
+		old = append(old, " <stale>left over</stale> {\"stale\":true}"...)
+		d.Files[fc.name] = old
+		c.C["probe.preexisting_longer_file"]++
+		c.Put("preexisting_file_bytes", len(old))
+	}
 	werr, v := fc.write(c)
 	if v != nil {
 		return v
